@@ -721,7 +721,7 @@ func (fr *frame) extCall(key string, reach string) {
 	if pure {
 		goal = "true"
 	}
-	ft.addObl(fr, "extcall", fr.tag+shortKey(key), reach, goal, "call to a function without contract (must be known effect-free): "+key, []string{"C09", "C15"}, nil)
+	ft.addObl(fr, "extcall", fr.tag+shortKey(key), reach, goal, "call to a function without contract (must be known effect-free and total): "+key, []string{"C09", "C15", "C07"}, nil)
 }
 
 func isGeneratedKey(key string) bool {
